@@ -153,7 +153,10 @@ func c08One(c *Ctx, g, gsteps *Group, kds []mKeyDesc, layout string, idx int) {
 			in.md.Descs[i].ACS[j].Binding = bPost
 		}
 	}
-	if _, ok := hashByMethod[in.cfg.Method]; !ok {
+	if in.cfg.Signer != nil && *in.cfg.Signer == ecSignerID { // signer kinds are C06's dimension
+		in.cfg.Signer, in.cfg.SignerKind, in.cfg.Method = nil, "", ""
+	}
+	if _, ok := hashByMethod[in.cfg.Method]; !ok || strings.Contains(in.cfg.Method, "#ecdsa-") {
 		in.cfg.Method = ""
 	}
 	var markers []string
@@ -397,7 +400,7 @@ func drawSizes(d [][]byte) []int {
 func c08Fresh(c *Ctx, g *Group) {
 	kds := []mKeyDesc{{Use: "encryption", Certs: []string{fix.CertB64("rsa_b")}}}
 	in, _ := genInput06(c.Rng, func(*mrand.Rand) []mKeyDesc { return kds })
-	in.cfg.Method = ""
+	in.cfg.Method, in.cfg.Signer, in.cfg.SignerKind = "", nil, ""
 	for i := range in.md.Descs {
 		for j := range in.md.Descs[i].ACS {
 			in.md.Descs[i].ACS[j].Binding = bPost
